@@ -36,7 +36,7 @@ MANIFEST = dict(
     level="other", design_ref="DESIGN.md 8 (C13), 10",
     technique="(A) TLA+ model of the delay effect's buffer handling (DelayLine.tla) checked exhaustively by TLC against the property-level echo definition for every input, configuration and partition into process calls; every TLC-generated behaviour replayed on the real delay effect and validated by TLC. (B) TLA+ law checker (P_C13/T_C13) over integer observations of paired runs of all eight real built-in effects recorded by a seeded driver",
     text="(A, genuine model) The delay line - ring of D frames, sub-chunking of each process call by the buffer length, feedback gain and a nested gain in the feedback path in {0,1}, mix in {dry,wet}, integer samples - is modelled from delay.rs and TLC checks for every input of up to 8 samples, D = 1..3 (4 thorough) and every partition of the input into process calls that the outputs equal the per-sample echo definition out[n] = dry*in[n] + wet*echo[n], line[n] = in[n] + G*line[n-D] (so: chunk independence and echo timing), with state invariants (buffer = last D values of the recurrence) and reachability witnesses; every behaviour TLC generates (all partitions x index-coded inputs x configurations) is replayed on the real DelayBuilder effect with exact dyadic samples and TLC validates each recorded process call against the same definition and against the model. (B, law checking over recorded runs) For compressor, delay (also with one effect nested in its feedback path), distortion, EQ filter, filter, panning control, reverb and volume control, built through their public builders, the driver records paired runs and TLC checks: neutral setting (mix 0, 0 dB, centre, 0 dB EQ gain, hard clip at 0 dB) => output == input sample for sample; zero input from a fresh effect => zero output; finite input => no panic and finite output over long runs (100k frames quick, 1M thorough) at parameter range edges; superposition and scaling for the linear effects within a stated, parameter-derived tolerance; equal output (every f32 sample ==) for two different partitions into process calls; for seeded boundary-biased parameters, signals (noise, impulse, step, DC, full scale, subnormals, sine, burst) and sample rates 8 kHz..192 kHz.",
-    note="Only part A is a model explored by TLC; its exhaustiveness is over the stated small bounds and gains 0/1 (no fractional feedback, no nested delay). Part B is sampled, not exhaustive: TLC adds no exploration there, it evaluates the laws on integer observations (windows of round(x*1e7/mag) for the first/last 32 frames, whole-run digests - counts of differing/non-zero/non-finite samples and the largest deviation - computed by the driver). Parameters are constant during a run (no tweens or modulators: that is C11/C06 territory). Linearity tolerance: 11e-7 * mag * K, mag = peak magnitude of the runs involved, K = ceil(2*sqrt(R*Tm)*A) from the effect parameters (R roundings per frame, Tm memory of the recursion in frames, A internal gain; formula in checks/c13.py); configurations with K > 2000 are checked for the other laws only. Compressor ratios below 0.25 (expansion by hundreds of dB), delay feedback above 0 dB and EQ q = 0 are treated as outside the documented ranges. The first echo's level (feedback gain before or after the output tap) is not fixed by the documentation; either is accepted if used consistently. Delay times shorter than one frame and distortion drive <= -60 dB are separate scenario classes (known defects D7/D8), judged only once recorded in known_findings.json.")
+    note="Only part A is a model explored by TLC; its exhaustiveness is over the stated small bounds and gains 0/1 (no fractional feedback, no nested delay). Part B is sampled, not exhaustive: TLC adds no exploration there, it evaluates the laws on integer observations (windows of round(x*1e7/mag) for the first/last 32 frames, whole-run digests - counts of differing/non-zero/non-finite samples and the largest deviation - computed by the driver). Parameters are constant during a run (no tweens or modulators: that is C11/C06 territory). Linearity tolerance: 11e-7 * mag * K, mag = peak magnitude of the runs involved, K >= 1 computed from the effect parameters alone (memoryless: 4; state-variable filters: ceil((2*sqrt(8*Tm) + Tm/4)*A) with Tm the memory of the recursion in frames and A its internal gain; delay/reverb loops: linear in the number of passes that are still audible; derivation in checks/c13.py `conditioning`); configurations with K > 2000 are checked for the other laws only. Compressor ratios below 0.25 (expansion by hundreds of dB), delay feedback above 0 dB and EQ q = 0 are treated as outside the documented ranges. The first echo's level (feedback gain before or after the output tap) is not fixed by the documentation; either is accepted if used consistently. Delay times shorter than one frame and distortion drive <= -60 dB are separate scenario classes (known defects D7/D8), judged only once recorded in known_findings.json.")
 
 KMAX = 2000
 RATES = [8000, 11025, 22050, 44100, 48000, 88200, 96000, 192000]
@@ -66,7 +66,7 @@ def model_check(res, tier):
     """exhaustive runs; returns when all are done (they run side by side, 4 + 2 + 2 workers)"""
     jobs = []
     if tier == "quick":
-        jobs.append(("DelayLine N=7 vals={0,1} D=1..3 all partitions", dl_cfg(7, [0, 1], [1, 2, 3], 7, "all", DL_INVS), 4, None))
+        jobs.append(("DelayLine N=8 vals={0,1} D=1..3 all partitions", dl_cfg(8, [0, 1], [1, 2, 3], 8, "all", DL_INVS), 4, None))
     else:
         jobs.append(("DelayLine N=8 vals={-1,0,1} D=1..4 all partitions", dl_cfg(8, "signed", [1, 2, 3, 4], 8, "all", DL_INVS), 4, None))
     # a delay shorter than one frame: the model panics (chunks_mut(0)); the monitor calls that a violation, named as known finding
@@ -96,7 +96,7 @@ def model_check(res, tier):
 
 def gen_delayline(tier, rng):
     """every behaviour of the model for index-coded inputs -> scenarios for the real delay effect"""
-    n, b, ds = (6, 4, [0, 1, 2, 3]) if tier == "quick" else (8, 8, [0, 1, 2, 3, 4])
+    n, b, ds = (7, 4, [0, 1, 2, 3]) if tier == "quick" else (8, 8, [0, 1, 2, 3, 4])
     cfg = write_cfg("Gen_DelayLine_%s.cfg" % tier, dl_cfg(n, [0, 1], ds, b, "coded", "INVARIANT Dump", spec="GSpec"))
     behs = tlc_generate("Gen_DelayLine.tla", cfg, "bfs", timeout=3000, tag="c13g")
     if not behs:
@@ -161,8 +161,12 @@ def svf_memory(g, k, n):
     return min(n, (g + 1.0 / g) * (k + 1.0 / k)) + 1
 
 
+def svf_allowance(tm, a):
+    return int(min(math.ceil((2 * math.sqrt(8 * tm) + 0.25 * tm) * a), 1 << 30))
+
+
 def conditioning(fx, sr, n):
-    """K = ceil(2 * sqrt(R * Tm) * A): allowance of the linearity laws in multiples of 11e-7 * mag.
+    """K: allowance of the linearity laws in multiples of 11e-7 * mag (random part 2 sqrt(R Tm) A + systematic part).
 
     T(x) computed in f32 = L(x) + e(x) with L linear.  Each of the R roundings per frame that enter the recursion
     perturbs a value of magnitude <= S by at most 2^-24 S (std 2^-24 S / sqrt 12); a perturbation persists for Tm
@@ -170,7 +174,11 @@ def conditioning(fx, sr, n):
     The residual T(a+b) - T(a) - T(b) holds three such errors; eight standard deviations are
     8 sqrt(3/12) 2^-24 S sqrt(R Tm) = 4 * 2^-24 * S sqrt(R Tm) = 0.22 * (11e-7) * S sqrt(R Tm).
     With S <= A * mag the allowance is 0.22 sqrt(R Tm) A units; the constant used is 2 (nine times that), which
-    covers correlated roundings and the crude Tm and A below.  Tm and A per effect:
+    covers the crude Tm and A below.  For deterministic inputs (DC, steps) the roundings are not independent: the state
+    settles where every step rounds the same way, and the errors add linearly, at worst R Tm 2^-25 S per run
+    (= 0.08 R Tm units for three runs); measured on ill-conditioned EQ settings with DC/step inputs the residual reaches
+    0.55 * 2^-24 * Tm * mag = 0.03 Tm units, the allowance adds 0.25 Tm A (eight times the measured figure).
+    So for the state-variable filters K = ceil((2 sqrt(8 Tm) + 0.25 Tm) A).  Tm and A per effect:
       volume/panning  memoryless: R = 3, Tm = 1, A = 1
       filter          trapezoidal SVF: g = tan(pi clamp(fc/sr, 1e-4, 0.5)), k = 2 - 1.9 clamp(res, 0, 1);
                       slowest mode decays over (g + 1/g)(k + 1/k) frames (capped by the run length);
@@ -181,7 +189,8 @@ def conditioning(fx, sr, n):
     deterministic inputs (DC, steps) the roundings of successive passes have the same sign, so the errors add linearly
     in the number of passes P instead of in quadrature: |e| <= R P 2^-25 S per run, three runs = 0.08 R P units; the
     constant used is 0.25 R P (three times that) on top of the memoryless part:
-      reverb          P = min(n / shortest comb length, 1/(1 - feedback)), R = 3: K = ceil(2 sqrt(30) + 0.75 P)
+      reverb          P = min(n / shortest comb length, 1/(1 - feedback)), R = 6 (comb and its damping filter):
+                      K = ceil(2 sqrt(30) + 1.5 P)
       delay           P = min(n / D, 1/(1 - 10^(fb/20))), R = 2: K = ceil((4 + 0.5 P) * A); a nested effect multiplies A by its K"""
     t = fx["t"]
     if t in ("vol", "pan"):
@@ -190,7 +199,7 @@ def conditioning(fx, sr, n):
         r = min(max(fx["cutoff"] / sr, 0.0001), 0.5)
         g = math.tan(math.pi * r)
         k = 2 - 1.9 * min(max(fx["res"], 0.0), 1.0)
-        R, T, A = 8, svf_memory(g, k, n), 1 + 1 / k
+        return svf_allowance(svf_memory(g, k, n), 1 + 1 / k)
     elif t == "eq":
         r = min(max(fx["freq"] / sr, 0.0001), 0.5)
         a = 10 ** (fx["gain"] / 40)
@@ -202,12 +211,12 @@ def conditioning(fx, sr, n):
             g, k = g / math.sqrt(a), 1 / q
         else:
             g, k = g * math.sqrt(a), 1 / q
-        R, T, A = 8, svf_memory(g, k, n), (1 + 1 / k) * max(a * a, 1.0)
+        return svf_allowance(svf_memory(g, k, n), (1 + 1 / k) * max(a * a, 1.0))
     elif t == "reverb":
         ln = max(1, int(1116 * sr / 44100))
         fb = min(max(fx["fb"], 0.0), 1.0)
         passes = min(n / ln, 1 / (1 - fb) if fb < 1 else 1e18)
-        return int(min(math.ceil(2 * math.sqrt(3 * 10) + 0.25 * 3 * passes), 1 << 30))
+        return int(min(math.ceil(2 * math.sqrt(3 * 10) + 0.25 * 6 * passes), 1 << 30))
     elif t == "delay":
         d = max(1, int(fx["time_ns"] * 1e-9 * sr))
         gfb = 10 ** (min(fx["fb"], 0.0) / 20) if fx["fb"] > -60 else 0.0
@@ -331,7 +340,7 @@ def law_scenario(rng, t, n, src, cls="normal", fx_over=None):
 
 def gen_laws(rng, tier):
     scen = []
-    per = 80 if tier == "quick" else 2500
+    per = 120 if tier == "quick" else 2500
     for t in TYPES:
         for _ in range(per):
             n = rng.choice([1, 2, 3, 5, 8, 17, 32, 33, 100, 257, 1000, 4096])
@@ -417,8 +426,13 @@ def validate_parts(tp, parts=4):
         p = "%s.part%d" % (tp, k)
         open(p, "w").write("\n".join(lines[cuts[k]:cuts[k + 1]]) + "\n")
         paths.append(p)
-    with ThreadPoolExecutor(max_workers=parts) as ex:
-        rs = list(ex.map(validate, paths))
+    try:
+        with ThreadPoolExecutor(max_workers=parts) as ex:
+            rs = list(ex.map(validate, paths))
+    finally:
+        for p in paths:
+            if os.path.exists(p):
+                os.remove(p)
     bad = [b for r in rs for b in r[0]]
     drift = [d for r in rs for d in r[1]]
     return bad, drift, sum(r[2] for r in rs)
